@@ -19,7 +19,7 @@ PAD_HINT = {'rule': 'R1', 'find': 'let mut hash = md5::Context::new();',
 UNIT = {
  'name': 'cryptkdf',
  'doc': 'nested fns of Decoder::from_password against ISO 32000-1 Algorithms 2, 3 a-d, 4, 5, 6; Decoder::revision_6_kdf against '
-        'ISO 32000-2 Algorithm 2.B; from_password re-proved on the proved contracts (MD5, SHA-2, RC4, AES uninterpreted, hash feed as ghost state)',
+        'ISO 32000-2 Algorithm 2.B; from_password re-proved on the proved contracts (MD5, SHA-2, AES uninterpreted, RC4 = spec fn and lemmas of units/rc4 with no RC4 axiom, hash feed as ghost state)',
  'items': {
   'const PADDING': {'kind': 'decl', 'file': F, 'header': r'^const PADDING\b'},
   'enum CryptMethod': {'kind': 'decl', 'file': F, 'header': r'^pub enum CryptMethod$', 'attrs': ['#[derive(Clone, Copy)]']},
@@ -44,7 +44,7 @@ UNIT = {
      'requires': [KEY_OK],
      'ensures': [('alg5_hash_and_20_rc4', 'r@ == alg5_u16(id@, key@)')],
      'loops': {1: {'for_ghost': 'it',
-                   'invariant': [KEY_OK, ('alg5_counter_1_to_19', 'data@ == alg5_up(key@, rc4_spec(key@, md5_spec(iso_padding() + id@)), i as int - 1)')]}},
+                   'invariant': [KEY_OK, ('alg5_counter_1_to_19', 'data@ == alg5_up(key@, rc4(key@, md5_spec(iso_padding() + id@)), i as int - 1)')]}},
      'rewrites': [PAD_HINT,
                   {'rule': 'R7', 'find': 'key.to_owned()', 'replace': 'hoist_to_vec(key)'}, H_XOR]},
   'check_password_rev_3_4': {'kind': 'fn', 'file': F, 'container': NESTED, 'name': 'check_password_rev_3_4', 'props': ['C06'],
